@@ -3,6 +3,7 @@ CONSTANTS
   GenMode = TRUE
   GenDepth = 16
   MaxT = 400
+  MaxReloads = 0
   MaxN = 3
   MaxAdm = 100
   RuleSets <- SetsAll
